@@ -906,7 +906,16 @@ node of a type with required attributes; `add_to_fragment` below the last-child 
 `C11-fitter-partial-node`, excluded by the guard `Slice.noPartialNode`, PM/Fitter.lean, whose
 negation is the finding's class — compared exactly with harness/findings.py `partial_node_class`).
 The relational tie `fitGuards` (harness/rangeplan.py) checks on every generated request:
-guards true ⇒ the real `replace_step` did not raise and did return. -/
+guards true ⇒ the real `replace_step` did not raise and did return.
+A first invariant of `FitState` over the whole run is in place (Proofs/FitInv.lean, section "the emitted
+step is well-formed" below): `placed` keeps its start spine and only grows — enough for the start half of
+`Slice.wf` and the `insert` bound of every emitted step — and the *in-step* predicate
+`FitState.inStepB` (every frontier entry holds a match, `add_to_fragment` at the frontier's depth finds
+its node), to which the end half is reduced (`fit_emits_wf_of_inStep`) and under which
+`add_to_fragment`, `close_frontier_node` and `open_frontier_node` do not raise (`addToFragment_ok`,
+`closeFrontierNode_ok`, `openFrontierNode_ok`).  Not yet an invariant: that `frontier[i].match` is the
+automaton state after the children placed at level `i` (needed for "every closed node is valid" and for
+`content_match_at(child_count)` / `fill_before(…, True)` on close not to fail). -/
 
 /-- **`fit_no_internal_partial`** — with deterministic automata and a slice satisfying the
     termination guard, `replace_step` does not end in `outOfFuel`: it returns, raises, or would need a
@@ -1130,6 +1139,32 @@ theorem aroundShape_of (F T G1 G2 : Nat) (sl : Slice) (ins : Nat) (b : Bool)
   simp only [StepWF, Bool.and_eq_true, decide_eq_true_eq] at hwf
   simp only [aroundShape, Bool.and_eq_true, decide_eq_true_eq]
   exact ⟨⟨⟨⟨hwf.1, hwf.2⟩, h1⟩, h2⟩, h3⟩
+
+/-- **`fit_emits_wf_of_inStep`** — the full statement reduced to one invariant of the loop: if the
+    loop of `fit` ends with `placed` and the frontier *in step* (`FitState.inStepB`, PM/Fitter.lean,
+    decidable: every frontier entry holds a match and `frontier.length - 1 ≤ spineR placed`), then the
+    emitted step is well-formed, for every well-formed slice on a document whose element nodes have
+    creatable types.  The driver evaluates `inStepB` in the initial state and after **every** iteration
+    for every generated request (op `fitEmit`, counter "in-step invariant over the loop"): on the
+    bundled-family schemas it has never been false.  What remains for the unconditional
+    `fit_emits_wf` is to prove `inStepB` invariant under `place_nodes` (guards (a)–(c) above). -/
+theorem fit_emits_wf_of_inStep (S : Schema) (hdet : detB S = true) (hfill : S.fillersOKB = true) (doc : Node)
+    (f t : Nat) (sl : Slice) (hattrs : S.nodeAttrsOK doc = true) (hwf : sl.wf = true) (hft : f ≤ t) (st : Step)
+    (h : replaceStep S doc f t sl = .ok (some st))
+    (hin : ∀ rf st0 st1, doc.resolve f = some rf → fitInit S rf sl = .ok st0 →
+      fitLoop S (fitFuel S sl) st0 = .ok st1 → st1.inStepB = true) :
+    StepWF st = true ∧
+    (∀ F T G1 G2 sl' ins b, st = .replaceAround F T G1 G2 sl' ins b → aroundShape F T G1 G2 sl' ins = true) := by
+  have hw := replaceStep_wf_of_inStep S (detS_of_detB S hdet) (fillersOK_of_B S hfill) doc f t sl hattrs hwf st h hin
+  refine ⟨hw, ?_⟩
+  intro F T G1 G2 sl' ins b hst
+  have hos : sl.openStart ≤ spineL sl.content := by
+    simp only [Slice.wf, Bool.and_eq_true, decide_eq_true_eq] at hwf
+    exact hwf.1
+  obtain ⟨_, hr⟩ := fit_emits_wf_partial S doc f t sl st hft hos h
+  obtain ⟨_, h1, h2, h3⟩ := hr F T G1 G2 sl' ins b hst
+  subst hst
+  exact aroundShape_of F T G1 G2 sl' ins b hw h1 h2 h3
 
 /-- **`delete_emits_wf`** — every step `replace_step` emits for a deletion on a valid document is
     well-formed (`StepWF`: `Slice.wf`, `insert ≤ slice.size`), and a replace-around answer has
